@@ -2,6 +2,7 @@ package larking
 
 import (
 	"bufio"
+	"io"
 	"net"
 	"net/http"
 	"net/url"
@@ -36,7 +37,7 @@ func (c *vfConn) Read(p []byte) (int, error) {
 		return 0, nil
 	}
 	if c.pos >= len(c.in) {
-		return 0, net.ErrClosed
+		return 0, io.EOF // the peer has gone
 	}
 	n := copy(p, c.in[c.pos:])
 	c.pos += n
@@ -320,5 +321,68 @@ func VerifH_ws_stream() {
 	}
 	if k == 2 && oversize < 0 {
 		vfCover("two-messages")
+	}
+}
+
+func init() {
+	vfHarnesses["VerifH_ws_raw"] = VerifH_ws_raw
+}
+
+// VerifH_ws_raw (C09): after a successful WebSocket upgrade the client sends ARBITRARY bytes (a
+// symbolic 2-byte frame header - every opcode, FIN / RSV bit, mask bit and 7-bit length - followed
+// by up to 6 symbolic bytes, then the connection ends): the mux must return control without a
+// panic, the handler must be invoked exactly once and released, and no message larger than the
+// receive limit may reach it.
+func VerifH_ws_raw() {
+	in := schemaRoute()
+	out := newFakeMD("vf.Resp", strField("r"))
+	rule := vfHTTPRule("websocket", "/v1/{f=rooms/*}")
+	rule.Body = "*"
+	md := &fakeMethod{full: "vf.S.Chat", in: in, out: out, cs: true, ss: true, opts: &fakeOpts{rule: rule}}
+	svc := &fakeSvc{full: "vf.S", methods: &fakeMethodList{list: []*fakeMethod{md}}}
+	const limit = 12
+	mux, err := NewMux(FilesOption(vfRegistry(svc)), MaxReceiveMessageSizeOption(limit))
+	if err != nil {
+		vfFail("NewMux failed")
+	}
+	srv := &vfEchoSrv{in: in, out: out}
+	sd := &grpc.ServiceDesc{ServiceName: "vf.S", Streams: []grpc.StreamDesc{{StreamName: "Chat", Handler: vfEchoStreamHandler, ClientStreams: true, ServerStreams: true}}}
+	if err := mux.registerService(sd, srv); err != nil {
+		vfFail("registerService failed: " + err.Error())
+	}
+	var stream []byte
+	switch vfChoice(4) {
+	case 0:
+		n := 2 + vfLen(vfBound(5, 6))
+		stream = vfBytes(n)
+		// declared payload lengths up to 9 bytes (longer ones only differ in how much is missing
+		// when the connection ends; extended lengths are the concrete cases below)
+		vfAssume(stream[1]&0x7f <= 9)
+	case 1:
+		stream = append([]byte{0x81, 0x80 | 125, 1, 2, 3, 4}, vfBytes(3)...) // 125 bytes announced, 3 sent
+		vfCover("long-announced")
+	case 2:
+		stream = append([]byte{0x82, 0x80 | 126, 0xff, 0xff, 1, 2, 3, 4}, vfBytes(2)...) // 16-bit extended length
+		vfCover("extended-16")
+	default:
+		stream = append([]byte{0x81, 0x80 | 127, 0x7f, 0xff, 0xff, 0xff, 0xff, 0xff, 0xff, 0xff, 1, 2, 3, 4}, vfBytes(2)...) // 64-bit extended length 2^63-1
+		vfCover("extended-64")
+	}
+	conn := &vfConn{in: stream}
+	w := &vfHijackRW{fakeRW: newFakeRW(), conn: conn}
+	r := &http.Request{
+		Method: "GET", URL: &url.URL{Path: "/v1/rooms/x"}, ProtoMajor: 1, ProtoMinor: 1, Host: "h",
+		Header: http.Header{"Upgrade": []string{"websocket"}, "Connection": []string{"Upgrade"}, "Sec-Websocket-Version": []string{"13"}, "Sec-Websocket-Key": []string{"dGhlIHNhbXBsZSBub25jZQ=="}},
+	}
+	mux.ServeHTTP(w, r)
+	vfCheck(srv.calls == 1, "WebSocket handler not invoked exactly once")
+	vfCheck(srv.recvErr != nil, "the receive loop was not released although the connection ended")
+	for _, m := range srv.got {
+		vfCheck(len(`{"g":"`+m.str("g")+`"}`) <= limit, "a WebSocket message larger than the receive limit reached the handler")
+	}
+	if len(srv.got) > 0 {
+		vfCover("message-delivered")
+	} else {
+		vfCover("no-message")
 	}
 }
